@@ -746,7 +746,9 @@ macro_rules! map {
                                 FromMeta::from_meta(inner).map_err(|e| e.at_path(&path)),
                             ))
                         }
-                        NestedMeta::Lit(_) => Err(Error::unsupported_format("expression")),
+                        NestedMeta::Lit(_) => {
+                            Err(Error::unsupported_format("expression").with_span(item))
+                        }
                     }
                 });
 
